@@ -125,6 +125,8 @@ def build(tier, seed):
     gsrc = """#[derive(Debug, Clone, PartialEq, strum::EnumCount, strum::EnumIter, strum::VariantNames)]
 #[strum(serialize_all = "UPPERCASE")]
 pub enum G<T: Default + Clone + PartialEq + core::fmt::Debug, const K: usize> { A(T), #[strum(disabled)] H, B { x: Wrap<K> }, C }
+#[derive(Debug, Clone, PartialEq, strum::EnumCount, strum::EnumIter, strum::VariantNames)]
+pub enum WithDefault { First, #[strum(default)] Other(String), #[strum(serialize = "l", serialize = "last")] Last }
 #[derive(Debug, Clone, PartialEq, Default)]
 pub struct Wrap<const K: usize>;
 """
@@ -139,6 +141,11 @@ pub struct Wrap<const K: usize>;
     vcover!(i == 3, "last");
     let exp: &[u8] = match i { 0 => b"A", 1 => b"H", 2 => b"B", _ => b"C" };
     assert!(beq(names[i].as_bytes(), exp));
+    // a default (catch-all) variant is a declared variant like any other for COUNT / iter / VariantNames
+    assert!(<WithDefault as EnumCount>::COUNT == 3 && <WithDefault as IntoEnumIterator>::iter().len() == 3);
+    let wn = <WithDefault as VariantNames>::VARIANTS;
+    assert!(wn.len() == 3 && beq(wn[0].as_bytes(), b"First") && beq(wn[1].as_bytes(), b"Other") && beq(wn[2].as_bytes(), b"last"),
+            "VariantNames does not list every declared variant (default variant)");
     let it = <GG as IntoEnumIterator>::iter().nth(i);
     match (i, it) {
         (0, Some(G::A(t))) => assert!(t == 0),
